@@ -331,6 +331,18 @@ def derived(ctx: Ctx, n, salt):
             yield (f"parse({t!r})", m, [t])
     from dep_logic.markers import AnyMarker, EmptyMarker
     specials = [("<any>", AnyMarker()), ("<empty>", EmptyMarker())]
+    # regression corpus (c55408d): compounds whose cnf/dnf are bulkier than the raw candidate of union(), combined with <empty> / <any>
+    for ta in ('python_version == "2.*" and extra == "bar" or python_full_version <= "2.7.18" and os_name not in ""',
+               '(python_version in "3.6, 3.7" and extra != "a") or extra == "b" or (sys_platform == "darwin" and python_full_version < "3.7.2")',
+               'python_version == "3.*" and os_name == "nt" or python_full_version < "3.6.1" and sys_platform not in "win32 darwin"'):
+        ok, a = safe(ctx, "derive", lambda: parse(ta))
+        if not ok:
+            continue
+        for tb, b in specials:
+            for opname, f in (("|", lambda: a | b), ("&", lambda: a & b), ("r|", lambda: b | a), ("r&", lambda: b & a)):
+                ok, r = safe(ctx, "derive", f)
+                if ok:
+                    yield (f"({ta}) {opname} ({tb})", r, [ta])
     for i in range(n):
         (ta, a), (tb, b) = rng.choice(parsed), rng.choice(parsed)
         if i < len(CORPUS_PAIRS):
@@ -889,6 +901,14 @@ def _c10_class(probe, hist, warm=None, cold=None):
 
 
 CORPUS_TEXTS = [
+    # regression corpus of the repaired defects (bc2bb2a: python_version operands with trailing ".0"; d25006e: literal-on-the-left ~= / wildcard)
+    'python_full_version >= "2.7.18" and python_version == "2.7.0"', 'python_version >= "3.8.0" and python_full_version < "3.8.5"', 'python_version != "3.9.0" or python_full_version >= "3.9.2"',
+    'python_version <= "3.10.0" and python_full_version > "3.10.1"', 'python_version ~= "3.8.0" or python_full_version >= "3.9.1"', 'python_version > "3.7.0.0" and python_full_version >= "3.8.5"',
+    '"3.8.1" ~= python_full_version and python_full_version < "3.8.1"', '"3.8.*" == python_version or python_version < "3.8"', '"3.8.*" != python_version and python_version >= "3.8"',
+    '"3.8" ~= python_version or python_version < "3.0"', '"3.7.*" == python_full_version and python_full_version >= "3.7.2"',
+    # 9db3cb1: a major-only python_version operand means X.0
+    'python_version > "3" and python_full_version > "3.7.1"', 'python_version <= "3" or python_full_version >= "3.0.5"', 'python_version >= "3" and python_full_version < "3.0.2"',
+    'python_version == "3" or python_full_version >= "3.1.0"', 'python_version < "3" and python_full_version >= "2.7.18"',
     '"3.11a3" < python_full_version and python_version != "2.7"', '"3.7.0.post2" > python_full_version and python_version <= "3.11"', '"3.9.dev0" < python_full_version or python_version < "3.8"',
     '"lin" in sys_platform and sys_platform == "linux"', '"lin" in sys_platform or sys_platform == "win32"', '(sys_platform == "linux" or sys_platform == "linux2") and "2" in sys_platform',   # literal-on-the-left containment (fixed 0a9cbbb)
     '(sys_platform != "linux" and sys_platform != "linux2") or "lin" not in sys_platform', '"3.1" in python_version and python_version >= "3.10"',
@@ -933,6 +953,9 @@ def _group_pairs():
 
 
 CORPUS_PAIRS = [
+    ('python_full_version >= "2.7.18"', 'python_version == "2.7.0"'), ('python_version >= "3.8.0"', 'python_full_version < "3.8.5"'), ('python_version <= "3.10.0"', 'python_full_version > "3.10.1"'),
+    ('python_version > "3"', 'python_full_version > "3.7.1"'), ('python_version <= "3"', 'python_full_version >= "3.0.5"'),
+    ('"3.8.1" ~= python_full_version', 'python_full_version < "3.8.1"'), ('"3.8.*" == python_version', 'python_version < "3.8"'), ('"3.8.*" != python_version', 'python_version >= "3.8"'),
     ('"3.11a3" < python_full_version', 'python_version != "2.7"'), ('"3.7.0.post2" > python_full_version', 'python_version <= "3.11"'),    # reversed < / > with a pre/post-release literal (fixed 004ebf8)
     ('"3.9.dev0" < python_full_version', 'python_full_version <= "3.9.0rc1"'),
     # two unions sharing a child, with version atoms that inflate cnf/dnf so that union() returns its raw candidate
